@@ -1,8 +1,11 @@
 package checks
 
 import (
+	"encoding/binary"
 	"fmt"
+	"os"
 	"runtime"
+	"strconv"
 	"sync"
 	"sync/atomic"
 	"time"
@@ -77,6 +80,7 @@ type c05Run struct {
 	total     int64
 	nestedIDs int64
 	posters   sync.WaitGroup
+	failed    map[[2]int]bool // posts whose Post call returned an error: their handler may run once or not at all
 }
 
 func (x *c05Run) now() int64 { return int64(time.Since(x.t0)) }
@@ -103,6 +107,10 @@ func (x *c05Run) handler(poster, id int, nest int, ioc *sonic.IO, nested *int64)
 }
 
 func (x *c05Run) post(ioc *sonic.IO, poster, id, nest int, nested *int64) {
+	_ = x.postE(ioc, poster, id, nest, nested)
+}
+
+func (x *c05Run) postE(ioc *sonic.IO, poster, id, nest int, nested *int64) error {
 	t := x.now()
 	err := ioc.Post(x.handler(poster, id, nest, ioc, nested))
 	r := x.now()
@@ -111,15 +119,188 @@ func (x *c05Run) post(ioc *sonic.IO, poster, id, nest int, nested *int64) {
 	if _, ok := x.execCnt[[2]int{poster, id}]; !ok {
 		x.execCnt[[2]int{poster, id}] = 0
 	}
+	if err != nil {
+		if x.failed == nil {
+			x.failed = map[[2]int]bool{}
+		}
+		x.failed[[2]int{poster, id}] = true
+	}
 	x.mu.Unlock()
-	_ = err
+	return err
+}
+
+// c05Eventfds lists the eventfd descriptors of this process.
+func c05Eventfds() map[int]bool {
+	out := map[int]bool{}
+	ents, _ := os.ReadDir("/proc/self/fd")
+	for _, e := range ents {
+		n, err := strconv.Atoi(e.Name())
+		if err != nil {
+			continue
+		}
+		if l, err := os.Readlink("/proc/self/fd/" + e.Name()); err == nil && l == "anon_inode:[eventfd]" {
+			out[n] = true
+		}
+	}
+	return out
+}
+
+const c05EventfdMax = uint64(0xfffffffffffffffe)
+
+func c05EventfdAdd(fd int, v uint64) error {
+	var b [8]byte
+	binary.LittleEndian.PutUint64(b[:], v)
+	_, err := unix.Write(fd, b[:])
+	return err
+}
+
+// c05Saturated: the write of the wake-up fails. The eventfd counter of a fresh IO context is driven to its maximum
+// from outside (what 2^64-2 unread wake-ups would do), so Post's write(1) returns EAGAIN. A handler whose Post
+// returned nil must still run exactly once, one whose Post returned an error at most once, and Pending()/Posted()
+// stay exact. Phase 2 places, through the post:after-append hook, a complete successful Post of another goroutine
+// (the loop having consumed the wake-ups in between) into the window between a Post's append and its failing write.
+func c05Saturated(c *vf.Case, x *c05Run, nested *int64, points map[string]int, pmu *sync.Mutex) {
+	r := c.Rng
+	before := c05Eventfds()
+	ioc, err := sonic.NewIO()
+	if err != nil {
+		c.Failf("harness-setup", "NewIO: %v", err)
+		return
+	}
+	defer ioc.Close()
+	wfd := -1
+	nNew := 0
+	for fd := range c05Eventfds() {
+		if !before[fd] {
+			wfd = fd
+			nNew++
+		}
+	}
+	if nNew != 1 {
+		c.Count("saturation_probe_skipped_waker_not_identified", 1)
+		return
+	}
+	drainLoop := func(want int64) {
+		for it := 0; it < 200 && atomic.LoadInt64(&x.total) < want; it++ {
+			_, _ = ioc.PollOne()
+		}
+		for it := 0; it < 5; it++ {
+			_, _ = ioc.PollOne()
+		}
+	}
+	quiescent := func(where string) {
+		if p, q := ioc.Pending(), ioc.Posted(); p != int64(q) {
+			c.Failf("pending-differs-after-failed-wakeup-write", "%s: Pending()=%d, Posted()=%d on an IO context that only ever had handlers posted", where, p, q)
+		}
+	}
+	// phase 1: sequential. k posts while the counter is saturated, from the loop goroutine or from another one
+	rounds := r.Range(1, 4)
+	pid := 3000
+	for round := 0; round < rounds && !c.Failed(); round++ {
+		if err := c05EventfdAdd(wfd, c05EventfdMax); err != nil {
+			c.Count("saturation_probe_skipped_counter_not_zero", 1)
+			return
+		}
+		k := r.Range(1, 5)
+		other := r.Chance(1, 2)
+		base := atomic.LoadInt64(&x.total)
+		nfail := 0
+		do := func() {
+			for i := 0; i < k; i++ {
+				pid++
+				if x.postE(ioc, pid, 0, 0, nested) != nil {
+					nfail++
+				}
+			}
+		}
+		if other {
+			done := make(chan struct{})
+			go func() { do(); close(done) }()
+			<-done
+		} else {
+			do()
+		}
+		c.Logf("saturated waker, round %d: %d posts (other goroutine: %v), %d returned an error", round, k, other, nfail)
+		c.Count("posts_with_a_failing_wakeup_write", nfail)
+		drainLoop(base + int64(k))
+		quiescent("after posts whose wake-up write failed and a drained loop")
+		// an ordinary Post afterwards runs, and with it everything that was left queued
+		pid++
+		base2 := atomic.LoadInt64(&x.total)
+		if x.postE(ioc, pid, 0, 0, nested) != nil {
+			c.Count("post_after_drain_failed", 1)
+		}
+		drainLoop(base2 + 1)
+		if p, q := ioc.Pending(), ioc.Posted(); p != 0 || q != 0 {
+			c.Failf("pending-differs-after-failed-wakeup-write", "after a further successful Post and polling: Pending()=%d, Posted()=%d, want 0 and 0", p, q)
+		}
+	}
+	if c.Failed() {
+		return
+	}
+	// phase 2: another goroutine's Post completes inside the window of a Post whose write is then made to fail
+	windows := r.Range(1, 3)
+	for wi := 0; wi < windows && !c.Failed(); wi++ {
+		var stage int32
+		pid += 2
+		a, b := pid-1, pid
+		bErr := error(nil)
+		drained := r.Chance(2, 3)
+		sonic.VerifSetPoint(func(name string) {
+			pmu.Lock()
+			points[name]++
+			pmu.Unlock()
+			if name != "post:after-append" || !atomic.CompareAndSwapInt32(&stage, 1, 2) {
+				return
+			}
+			if drained {
+				// as if the loop had just read the wake-ups
+				var buf [8]byte
+				_, _ = unix.Read(wfd, buf[:])
+			}
+			done := make(chan struct{})
+			go func() { bErr = x.postE(ioc, b, 0, 0, nested); close(done) }()
+			<-done
+			// and 2^64-3 more wake-ups arrive before the first poster gets to its write
+			var cur [8]byte
+			_, _ = unix.Read(wfd, cur[:])
+			_ = c05EventfdAdd(wfd, c05EventfdMax)
+		})
+		if !drained {
+			_ = c05EventfdAdd(wfd, c05EventfdMax)
+		}
+		base := atomic.LoadInt64(&x.total)
+		atomic.StoreInt32(&stage, 1)
+		aErr := x.postE(ioc, a, 0, 0, nested)
+		sonic.VerifSetPoint(nil)
+		if atomic.LoadInt32(&stage) != 2 {
+			c.Count("saturation_window_hook_not_reached", 1)
+			atomic.StoreInt32(&stage, 0)
+		} else {
+			c.Count("posts_completed_inside_the_window_of_a_failing_post", 1)
+		}
+		c.Logf("window %d: Post A (error %v) with a complete Post B (error %v) of another goroutine between A's append and A's wake-up write (loop read the wake-ups before B: %v)", wi, aErr != nil, bErr != nil, drained)
+		if aErr != nil {
+			c.Count("posts_with_a_failing_wakeup_write", 1)
+		}
+		drainLoop(base + 2)
+		quiescent("after a Post completed inside the window of a failing Post")
+		pid++
+		base2 := atomic.LoadInt64(&x.total)
+		_ = x.postE(ioc, pid, 0, 0, nested)
+		drainLoop(base2 + 1)
+		if p, q := ioc.Pending(), ioc.Posted(); p != 0 || q != 0 {
+			c.Failf("pending-differs-after-failed-wakeup-write", "after a further successful Post and polling: Pending()=%d, Posted()=%d, want 0 and 0", p, q)
+		}
+	}
+	c.Count("saturated_waker_probes", 1)
 }
 
 func runC05(c *vf.Case) {
 	r := c.Rng
 	runtime.LockOSThread()
 	defer runtime.UnlockOSThread()
-	mode := c.Index % 8
+	mode := c.Index % 9
 	w, err := sim.NewWorld(c)
 	if err != nil {
 		c.Failf("harness-setup", "NewWorld: %v", err)
@@ -333,6 +514,8 @@ func runC05(c *vf.Case) {
 			_, _ = ioc.PollOne()
 		}
 		c.Count("runpending_rounds_with_concurrent_posts", rounds)
+	case 8: // the wake-up write fails
+		c05Saturated(c, x, &nested, points, &pmu)
 	default: // concurrent posters while the loop polls, arms/cancels timers and starts/cancels reads
 		P := []int{1, 4, 16}[r.Intn(3)]
 		N := r.Range(200, 2500)
@@ -442,6 +625,9 @@ func runC05(c *vf.Case) {
 	ops := append([]porcupine.Operation(nil), x.ops...)
 	posted := len(x.execCnt)
 	for k, n := range x.execCnt {
+		if x.failed[k] && n == 0 {
+			continue // Post reported an error: not running the handler is a correct outcome, running it twice is not
+		}
 		if n != 1 {
 			c.Failf("handler-executed-not-exactly-once", "handler (poster %d, #%d) executed %d times", k[0], k[1], n)
 			break
@@ -503,13 +689,14 @@ func init() {
 	register(&vf.Check{
 		ID:        "C05",
 		Technique: "race detector (-race build) over a concurrent Post workload + offline checkers over the recorded event log (exactly-once, thread identity, per-poster FIFO linearizability with porcupine) + bounded-progress probes (nested Post, wake-up) + delay injection at poller verifPoints",
-		Rule: "cases = rounds of {1,4,16} poster goroutines x 20-300 (thorough: up to 3000) posts, every 16th handler posting again, while the locked loop goroutine cycles PollOne/RunOneFor and arms/cancels a timer, starts/cancels a socket read and starts regular-file reads whose registration epoll refuses (same counters); nested-Post probes (depth 1-3), two thirds of them after a small batch and a burst of 1100-70000 posts queued between two loop iterations; Pending() >= loop-owned operations checked every poll; wake probes (loop blocked in RunOne, Post from another goroutine); RunPending with a loop-owned 5-25 ms timer while 2-6 goroutines post continuously; burst wake probes (1500 rounds of 2-4 simultaneous posts against a loop blocked in RunOne); PRNG-driven yields/spins at the verifPoints post:after-append, poll:after-wait, poll:batch-entry, dispatch:before-lock, dispatch:after-swap in two thirds of the rounds; " +
+		Rule: "cases = rounds of {1,4,16} poster goroutines x 20-300 (thorough: up to 3000) posts, every 16th handler posting again, while the locked loop goroutine cycles PollOne/RunOneFor and arms/cancels a timer, starts/cancels a socket read and starts regular-file reads whose registration epoll refuses (same counters); nested-Post probes (depth 1-3), two thirds of them after a small batch and a burst of 1100-70000 posts queued between two loop iterations; Pending() >= loop-owned operations checked every poll; wake probes (loop blocked in RunOne, Post from another goroutine); RunPending with a loop-owned 5-25 ms timer while 2-6 goroutines post continuously; burst wake probes (1500 rounds of 2-4 simultaneous posts against a loop blocked in RunOne); failing wake-up writes (one round in nine: the eventfd of a fresh IO context, found in /proc/self/fd, is driven to its maximum so that Post's write returns EAGAIN; 1-5 posts from the loop or another goroutine, then, through the post:after-append hook, a complete Post of another goroutine placed between a Post's append and its failing write, the loop having read the wake-ups in between in two of three: a handler whose Post returned nil runs exactly once, one whose Post returned an error at most once, Pending() == Posted() afterwards and both 0 after one more Post); PRNG-driven yields/spins at the verifPoints post:after-append, poll:after-wait, poll:batch-entry, dispatch:before-lock, dispatch:after-swap in two thirds of the rounds; " +
 			"every round is non-trivial; distinct = (mode, number of posts, delay points hit)",
 		Assumptions: []string{
 			"Posted()/Pending() are compared only at quiescence",
 			"handlers of different posters may interleave freely; only per-poster order is required",
 			"deadlock / lost wake-up are decided by 30 s bounds on work that takes microseconds",
 			"a porcupine timeout is counted, never treated as a violation",
+			"a handler whose Post call returned an error may run once or not at all (both roll-back and leave-queued are accepted); only a handler whose Post returned nil must run",
 		},
 		Builds: func(tier string) []string {
 			if tier == "thorough" {
